@@ -4,6 +4,7 @@ package sctp
 
 import (
 	"fmt"
+	"runtime"
 	"sort"
 	"testing"
 	"time"
@@ -349,6 +350,13 @@ func runC10(t *testing.T, x c10Scn, verbose bool) (c vfCase) {
 
 type c10E2E struct {
 	Sc vfE1 `json:"sc"`
+	// CbWrites > 0: every writing stream gets a buffered-amount-low callback (threshold CbThresh)
+	// that writes CbSize more bytes on the same stream, up to CbWrites times per stream: data is
+	// queued from inside the acknowledgement processing
+	CbWrites int `json:"cbwrites,omitempty"`
+	CbThresh int `json:"cbthresh,omitempty"`
+	CbSize   int `json:"cbsize,omitempty"`
+	CbYield  int `json:"cbyield,omitempty"` // after writing the callback: 0 returns at once, 1 yields the processor, 2 sleeps 1 us
 }
 
 func genC10E2E(rt *rapid.T) c10E2E {
@@ -384,6 +392,16 @@ func genC10E2E(rt *rapid.T) c10E2E {
 		x.Sc.Faults.Pos[0] = genPosFaults(rt, "fa", 40, 4, in)
 		x.Sc.Faults.Pos[1] = genPosFaults(rt, "fb", 40, 4, in)
 	}
+	if rapid.IntRange(0, 2).Draw(rt, "cb") == 0 {
+		x.CbWrites = rapid.IntRange(1, 6).Draw(rt, "cbwrites")
+		x.CbThresh = rapid.SampledFrom([]int{0, 500, 1200, 3000}).Draw(rt, "cbthresh")
+		x.CbSize = rapid.SampledFrom([]int{1, 400, 1100, 2000}).Draw(rt, "cbsize")
+		x.CbYield = rapid.IntRange(0, 2).Draw(rt, "cbyield")
+		lim := min(x.Sc.Cfg[0].rbuf(), x.Sc.Cfg[1].rbuf()) / 2
+		if x.CbSize > lim {
+			x.CbSize = lim
+		}
+	}
 	return x
 }
 
@@ -399,6 +417,8 @@ func runC10E2E(t *testing.T, x c10E2E, verbose bool) (c vfCase) {
 	var cwndQ [2]uint32
 	var cum [2]uint32
 	var cumSeen [2]bool
+	var prevARwnd [2]int
+	sackAt := [2]time.Duration{-1, -1}
 	windowLimited, asym := false, sc.Cfg[0].rbuf() != sc.Cfg[1].rbuf()
 	for i := 0; i < 2; i++ {
 		chunks[i] = map[uint32]*tx{}
@@ -440,7 +460,13 @@ func runC10E2E(t *testing.T, x c10E2E, verbose bool) (c vfCase) {
 					if outstanding[X] > int(cw) {
 						c.fail("cwnd-exceeded", "t=%v side %d: new DATA tsn=%d (%d bytes) sent with %d bytes already outstanding: %d > cwnd %d", ev.T, X, ch.TSN, len(ch.Data), before, outstanding[X], cw)
 					}
-					if outstanding[X] > lastARwnd[X] {
+					lim := lastARwnd[X]
+					if ev.T == sackAt[X] && prevARwnd[X] > lim {
+						// sent in the very instant in which the latest SACK was handed to the endpoint: it may
+						// still be working on it (a callback runs in the middle); the previous window counts
+						lim = prevARwnd[X]
+					}
+					if outstanding[X] > lim {
 						c.fail("rwnd-exceeded", "t=%v side %d: new DATA tsn=%d (%d bytes) sent with %d bytes already outstanding: %d > peer's last advertised window %d (mode %q, buffers %d / %d)",
 							ev.T, X, ch.TSN, len(ch.Data), before, outstanding[X], lastARwnd[X], sc.Mode, sc.Cfg[0].rbuf(), sc.Cfg[1].rbuf())
 					}
@@ -468,6 +494,9 @@ func runC10E2E(t *testing.T, x c10E2E, verbose bool) (c vfCase) {
 						continue
 					}
 					cum[to], cumSeen[to] = ch.Cum, true
+					if now := s.net.now(); now != sackAt[to] {
+						prevARwnd[to], sackAt[to] = lastARwnd[to], now
+					}
 					lastARwnd[to] = int(ch.ARwnd)
 					for tsn, tr := range chunks[to] {
 						if tr.acked {
@@ -501,12 +530,46 @@ func runC10E2E(t *testing.T, x c10E2E, verbose bool) (c vfCase) {
 				}
 			}
 		},
+		setup: func(s *vfSim) {
+			if x.CbWrites == 0 {
+				return
+			}
+			seen := map[[2]int]bool{}
+			for _, a := range sc.Acts {
+				k := [2]int{a.Side, a.SID}
+				if a.Kind != "write" || seen[k] {
+					continue
+				}
+				seen[k] = true
+				h, err := s.stream(a.Side, uint16(a.SID), PayloadTypeWebRTCBinary)
+				if err != nil {
+					continue
+				}
+				st, left := h.s, x.CbWrites
+				st.SetBufferedAmountLowThreshold(uint64(x.CbThresh))
+				st.OnBufferedAmountLow(func() {
+					if left > 0 {
+						left--
+						_, _ = st.WriteSCTP(vfPayload(5000+left, x.CbSize), PayloadTypeWebRTCBinary)
+						switch x.CbYield { // lets the write loop run while the read loop is still inside the callback
+						case 1:
+							runtime.Gosched()
+						case 2:
+							time.Sleep(time.Microsecond)
+						}
+					}
+				})
+			}
+		},
 		eval: func(s *vfSim, out *vfE1Out) { s.o.onQuiesce = nil }})
 	if out.Panic != "" && c.Verdict == "" {
 		c.fail("bubble-panic", "bubble: %s", out.Panic)
 	}
 	if !out.HSOK && c.Verdict == "" {
 		c.Skip = true
+	}
+	if x.CbWrites > 0 {
+		c.class("writes-from-callback")
 	}
 	c.class("mode-" + sc.Mode)
 	if asym {
